@@ -40,7 +40,7 @@ def gen_case(seed: int, prop: str, tier: str, fmt: str | None = None) -> dict:
     unit = F.unit_sectors(cfg)
     caps = F.caps(cfg)
     nops = rng.choice([0, 1, 2, 3, 3, 4, 6, 10, 20] if tier == "quick" else [0, 1, 2, 3, 4, 6, 10, 20, 40])
-    ops = gen.gen_layer_ops(rng, nsectors, unit, caps, nops, 1, F.has_below(cfg), F.hot_units(cfg))
+    ops = gen.gen_layer_ops(rng, nsectors, unit, caps, nops, 1, F.has_below(cfg), F.hot_units(cfg), gran=sector // 512)
     case = {"engine": "disk", "prop": prop, "fmt": fmt, "seed": seed, "align": align, "cfg": cfg, "ops": ops}
     # requests are generated against the final layer state
     layers, view = build_model(case)
@@ -163,7 +163,8 @@ def run_case(case: dict) -> RunResult:
                         viol = v(k, seq, f"{op}: got {len(got)} bytes, want {len(want)}")
                     else:
                         i = first_mismatch(got, want)
-                        s = max(0, i - ((off + i) % 16))
+                        s = i - ((off + i) % 16)
+                        s = s + 16 if s < 0 else s
                         viol = v("mismatch", seq, f"{op}: first wrong byte at +{i} (disk offset {off + i}): got "
                                                   f"{describe(got, s)}, want {describe(want, s)}")
                     break
